@@ -18,7 +18,7 @@
    is shared rather than copied makes one path read what its sibling wrote -- in the model
    exactly as in halmos.  The cheatcode semantics itself is Model/CheatModel.do_cheat.
    No proofs in this file (Proofs/ForkProofs.v). *)
-From Coq Require Import ZArith List Bool String.
+From Coq Require Import ZArith NArith List Bool String.
 From HV Require Import Gen.GenCheatSelectors Gen.GenCopies Model.CheatModel.
 Import ListNotations.
 Open Scope Z_scope.
@@ -117,6 +117,29 @@ Definition commit (h : heaps) (x : exec) (i : item) (w' : mworld) : heaps * exec
       ({| hb := upd (hb h) (xb x) (blk_of w'); hs := hs h; hc := hc h |}, x)
   | _ => (h, x)
   end.
+
+(* the premise of [commit] for the Block object, against the source: each of the six handlers
+   vm.fee/chainId/coinbase/difficulty/roll/warp is `ex.block.<attr> = word` (Gen.block_handlers,
+   regenerated from hevm_cheat_code.handle) -- an assignment to ONE attribute of the object the
+   Exec references; [cheat_of_selector] is the cheat the model runs for that selector *)
+Definition field_index (f : string) : option nat :=
+  if String.eqb f "basefee" then Some 0%nat
+  else if String.eqb f "chainid" then Some 1%nat
+  else if String.eqb f "coinbase" then Some 2%nat
+  else if String.eqb f "difficulty" then Some 3%nat
+  else if String.eqb f "number" then Some 4%nat
+  else if String.eqb f "timestamp" then Some 5%nat
+  else None.
+Definition blk_list (w : mworld) : list Z :=
+  [mw_basefee w; mw_chainid w; mw_coinbase w; mw_difficulty w; mw_number w; mw_timestamp w].
+Definition cheat_of_selector (sel : N) (x : Z) : option cheat :=
+  if N.eqb sel fee_sig then Some (Fee x)
+  else if N.eqb sel chainid_sig then Some (ChainId x)
+  else if N.eqb sel coinbase_sig then Some (Coinbase x)
+  else if N.eqb sel difficulty_sig then Some (Difficulty x)
+  else if N.eqb sel roll_sig then Some (Roll x)
+  else if N.eqb sel warp_sig then Some (Warp x)
+  else None.
 
 (* ------------------------------------------------------------------ create_branch *)
 Fixpoint kind_of (f : string) (t : list (string * copykind)) : copykind :=
